@@ -1,4 +1,5 @@
 import KaVerif.Driver.Arith
+import KaVerif.Driver.Disp
 /-
   The line-protocol dispatcher: one request `<stream> <payload>` ↦ one answer line.
 -/
@@ -13,6 +14,7 @@ def step (line : String) : String :=
     | [] => ("", "")
   match stream with
   | "aexp" => handleAExp payload
+  | "disp" => handleDisp payload
   | "ping" => "pong"
   | _ => "bad-stream"
 
